@@ -55,6 +55,7 @@ def path(engine, ctx, params):
     if got == ['Ok', want]:
         return {'status': 'ok', 'sample': {'fmt': params['fmt'], 'shape': params['name'], 'text': show(ctext)}, 'extra': {'fns': list(it.fn_seen), 'native': native}}
     return {'status': 'violation', 'kind': 'lexical-roundtrip', 'fmt': params['fmt'], 'shape': params['name'], 'tokens': lnarsese_tokens(cs), 'text': ctext, 'got': got, 'want': want,
+            'merge': params['fmt'] == 'han' and name_merges_with_copula(want, voc['copulas']),
             'message': '%s lexical %s prints as %r which parses to %s' % (params['fmt'], params['name'], show(ctext), json.dumps(got, ensure_ascii=False)[:120]), 'fns': list(it.fn_seen)}
 
 def confirm(v, oracle):
@@ -64,9 +65,20 @@ def confirm(v, oracle):
     return {'confirmed': p['equal'] is False, 'why': 'native lexical round trip is exact', 'replay': rp,
             'what': '%s lexical value %s prints as %r and parses to %s' % (v['fmt'], json.dumps(p['value'], ensure_ascii=False)[:100], p['text'], json.dumps(p['parsed'], ensure_ascii=False)[:140])}
 
+def name_merges_with_copula(t, copulas):
+    """does the value contain a statement whose subject is an atom whose name ends with chars that, glued to the statement's copula, spell a
+    longer copula of the format?  (the Han format prints subject and copula without a separator)"""
+    if isinstance(t, list):
+        if t and t[0] == 'Statement' and isinstance(t[2], list) and t[2] and t[2][0] == 'Atom':
+            name, cop = t[2][2], t[1]
+            for k in range(1, len(name) + 1):
+                if any(c2 != cop and c2 == name[-k:] + cop for c2 in copulas): return True
+        return any(name_merges_with_copula(x, copulas) for x in t)
+    return False
+
 def key_of(v):
-    # Han: a name that ends with the first char of a two-char keyword merges with the following keyword
-    if v['fmt'] == 'han' and v['shape'].startswith('statement'):
+    # Han: a name that ends with the first char of a two-char keyword merges with the following keyword (decided on the value, at any nesting)
+    if v['fmt'] == 'han' and v.get('merge'):
         return 'han:name-plus-copula-reads-as-longer-copula'
     return '%s:%s' % (v['fmt'], v['shape'].split('#')[0])
 
@@ -102,6 +114,27 @@ def shapes_for(voc, tier):
     for b in ([], ['0.5'], ['0.5', '0.75', '0.25'], ['0.5', '0.5'], ['1', '0', '1']) if quick else ([], ['0.5'], ['0.5', '0.75'], ['0.5', '0.75', '0.25'], ['1', '0', '1', '0.5']):
         out.append(('task/%d' % len(b), ('Task', b, stmt, voc['punctuations'][0], stamps[1] if len(stamps) > 1 else '', ['1', '0.9'])))
         out.append(('task-atom/%d' % len(b), ('Task', b, a(0), voc['punctuations'][-1], '', [])))
+    # generated nested lexical terms over the format's own vocabulary (any connecter/arity, duplicates allowed), deterministic per VERIF_SEED
+    import random, zlib, os
+    rng = random.Random(zlib.crc32(('c02-%s-%s' % (os.environ.get('VERIF_SEED', '0') or '0', sl)).encode()))
+    def gterm(d):
+        if d == 0 or rng.random() < 0.25:
+            p = rng.choice(voc['prefixes']); return ('LA', p, N(rng.randrange(3), 1) if p != '_' else '')
+        c = rng.choice(['C', 'C', 'S', 'T', 'T'])
+        if c == 'C':
+            kids = [gterm(d - 1) for _ in range(rng.randrange(1, 4))]
+            if rng.random() < 0.25: kids.append(kids[0])
+            return ('LC', rng.choice(voc['connecters']), kids)
+        if c == 'S':
+            l, r = rng.choice(voc['set_brackets']); kids = [gterm(d - 1) for _ in range(rng.randrange(1, 4))]
+            if rng.random() < 0.25: kids.insert(0, kids[0])
+            return ('LS', l, kids, r)
+        return ('LT', rng.choice(voc['copulas']), gterm(d - 1), gterm(d - 1))
+    for i in range(12 if quick else 150):
+        t = gterm(3)
+        out.append(('gen/%d/%s' % (i, t[0]), ('Term', t)))
+        if i % 3 == 0:
+            out.append(('gen/%d/sentence' % i, ('Sentence', t, rng.choice(voc['punctuations']), rng.choice(stamps), rng.choice([[], ['1'], ['0.5', '0.5'], ['1', '0', '0.25']]))))
     return out
 
 def main(tier, seed):
